@@ -4,6 +4,8 @@ From TS Require Import Model.Str Model.Outcome Model.Unicode Model.Syntax Model.
 From TS Require Import Model.Lang.TypeScript Model.Lang.Kotlin Model.Lang.Swift Model.Lang.Scala Model.Lang.Go Model.Lang.Python.
 From TS Require Import Spec.Serde Spec.C04Spec Spec.C04Readers.
 From TS Require Proofs.FrontTypes Proofs.FrontAttrs Proofs.C04 Proofs.C04_Back Proofs.C04_Matrix Proofs.GoAcronyms.
+From TS Require Import Spec.C04PyHelpers.
+From TS Require Proofs.C04_PyHelpers Proofs.C10.
 Import ListNotations.
 Local Open Scope nat_scope.
 From TS Require Proofs.C12Multi Proofs.C12MultiTS Proofs.C12MultiSwift Proofs.C12MultiGo Proofs.MultiSameSites.
@@ -599,3 +601,28 @@ Theorem C04_multi_back_go_alias :
         good_C04 Go (Proofs.C04_Back.c04_expect_of C04Alias (atype a) false (go_show y)) (c04r_seen (go_c04_typed name [] C04Alias x)) = true) items dss.
 Proof. exact Proofs.MultiSameSites.c04_multi_back_go_alias. Qed.
 Print Assumptions C04_multi_back_go_alias.
+
+(* ------------------------------------------------------------------ Python: the Option layer drops the (de)serialisation helpers (open finding) *)
+(* "The optional marker never changes the underlying translated type" fails for the Python types with a custom JSON translation: the
+   model - byte-equal to the real generator on every run of the check - writes a required OffsetDateTime field with the helper
+   functions and the same field under Option without them.  The class of the finding C04-python-option-drops-helpers is the computable
+   predicate Spec.C04PyHelpers.c04_py_option_drops_helpers (Rust base type, number of Option layers, marker, type without marker,
+   type of the twin without one layer); checks/c04.py evaluates its extraction on every failing Python cell. *)
+Theorem C04_python_option_drops_helpers_refuted :
+  exists text, py_generate uc_exec Proofs.C10.w_py_cfg Proofs.C04_PyHelpers.ph_prog = Ok text /\
+    contains_sub (lit "    a: " ++ Proofs.C04_PyHelpers.ph_helpers) text = true /\
+    contains_sub (lit "    b: Optional[datetime] = Field(default=None)") text = true /\
+    c04_py_option_drops_helpers (lit "OffsetDateTime") 1 true (lit "datetime") Proofs.C04_PyHelpers.ph_helpers = true.
+Proof. exact Proofs.C04_PyHelpers.python_option_drops_helpers_refuted. Qed.
+Print Assumptions C04_python_option_drops_helpers_refuted.
+
+(* the boundaries of the class: no Option layer, a missing marker, a type changed in another way, a base type without a translation
+   are outside; two Option layers over the translated type are inside *)
+Theorem C04_python_option_drops_helpers_boundaries :
+  c04_py_option_drops_helpers (lit "OffsetDateTime") 0 false (lit "datetime") Proofs.C04_PyHelpers.ph_helpers = false /\
+  c04_py_option_drops_helpers (lit "OffsetDateTime") 1 false (lit "datetime") Proofs.C04_PyHelpers.ph_helpers = false /\
+  c04_py_option_drops_helpers (lit "OffsetDateTime") 1 true (lit "str") Proofs.C04_PyHelpers.ph_helpers = false /\
+  c04_py_option_drops_helpers (lit "String") 1 true (lit "str") (lit "str") = false /\
+  c04_py_option_drops_helpers (lit "OffsetDateTime") 2 true (lit "Optional[datetime]") Proofs.C04_PyHelpers.ph_helpers = true.
+Proof. exact Proofs.C04_PyHelpers.python_option_drops_helpers_boundaries. Qed.
+Print Assumptions C04_python_option_drops_helpers_boundaries.
